@@ -1,5 +1,8 @@
 SPECIFICATION TraceSpec
 CONSTANTS
+  CodeUnanchored = FALSE
+  CodeNoRange = FALSE
+  CodeClientOffset = FALSE
   Zones = {"UTC", "Asia/Kolkata", "America/Los_Angeles", "America/New_York"}
 INVARIANT Verdicts
 INVARIANT Drift
